@@ -597,6 +597,59 @@ func main() {
 		}
 		r.Add("states", 1)
 	})
+	// ---- (1b) two transactions in one block: what the first one staged (including deletions of persisted keys)
+	// survives the failure or success of the second ----
+	if !inWorker() {
+		firsts := []script{}
+		seconds := []script{}
+		for _, sc := range scripts {
+			if len(sc.Steps) == 1 && sc.Steps[0].Kind == 0 && !sc.Fail {
+				firsts = append(firsts, sc)
+			}
+			if len(sc.Steps) <= 1 {
+				seconds = append(seconds, sc)
+			}
+		}
+		for v := 0; v < 2; v++ {
+			for _, s1 := range firsts {
+				for _, s2 := range seconds {
+					c := caseT{Variant: v, Blocks: []string{s1.String() + " ; " + s2.String()}, What: "two transactions in one block"}
+					a := freshApp(v)
+					var root0, root1 []byte
+					var err error
+					if p := vlib.Catch(func() { root0, err = a.genesis() }); p != "" || err != nil {
+						a.close()
+						continue
+					}
+					pre := genesisState(v)
+					if p := vlib.Catch(func() { _, root1, err = a.block(1, root0, []script{s1, s2}) }); p != "" || err != nil {
+						report(r, "two-tx-block-fails", fmt.Sprintf("%v %s (scripts %v ; %v)", err, p, s1, s2), c)
+						a.close()
+						continue
+					}
+					r.Add("transitions", 1)
+					r.Add("two_tx_blocks", 1)
+					want := applyModel(applyModel(pre, s1), s2)
+					if got := a.dump(); !eqState(got, want) {
+						k := "two-tx-committed-state-differs"
+						if s2.Fail {
+							k = "failed-command-undid-or-redid-earlier-transaction"
+						}
+						report(r, k, fmt.Sprintf("committed state %s, expected %s (first %v, then %v, initial %s)", show(got), show(want), s1, s2, show(pre)), c)
+					} else if !bytes.Equal(root1, refRoot(want)) {
+						report(r, "two-tx-state-root-differs", fmt.Sprintf("state root is not the sparse-Merkle root of %s (first %v, then %v)", show(want), s1, s2), c)
+					}
+					if p := vlib.Catch(func() { _, err = a.revertBlock(1, root1, nil) }); p == "" && err == nil {
+						if got := a.dump(); !eqState(got, pre) {
+							report(r, "two-tx-revert-state-differs", fmt.Sprintf("state after Revert %s, expected %s (first %v, then %v)", show(got), show(pre), s1, s2), c)
+						}
+					}
+					a.close()
+					r.Add("states", 1)
+				}
+			}
+		}
+	}
 	// ---- (2) block histories with restart recovery (app ahead of the engine by 1 or 2 blocks) ----
 	if !inWorker() {
 		hs := [][]script{}
